@@ -82,6 +82,11 @@ def mutations_of(lines, i):
                 out.append((code[:m.start()] + str(n + d) + code[m.end():] + rest, nm))
         for m in re.finditer(r'"([A-Za-z][A-Za-z0-9_]*)"', code):
             out.append((code[:m.start()] + '"' + m.group(1) + '_"' + code[m.end():] + rest, "string"))
+    rep(r"\b(\w*aad\w*), (\w*payload\w*)\b", r"\2, \1", "swap-args")
+    rep(r"\b(\w*payload\w*), (\w*aad\w*)\b", r"\2, \1", "swap-args")
+    for a, b in (("Alg", "Crit"), ("ContentType", "KeyId"), ("Iv", "PartialIv"), ("Kty", "Kid"), ("KeyOps", "BaseIv"), ("Iss", "Sub"), ("Exp", "Nbf"), ("Iat", "Cti"), ("Aud", "Iss")):
+        rep(r"(iana::\w+::)%s\b" % a, r"\g<1>%s" % b, "enum-neighbour")
+        rep(r"(iana::\w+::)%s\b" % b, r"\g<1>%s" % a, "enum-neighbour")
     rep(r": Some\(([^()]*)\),", ": None,", "some->none")
     rep(r"\.rev\(\)", "", "drop-rev")
     rep(r" < ", " > ", "lt->gt")
